@@ -91,13 +91,9 @@ static bool ref_escapes(const char* s, unsigned n)
 
 static void sym_string(char* s, unsigned cap)
 {
-    // alphabet: separator, dot, one ordinary character, terminator.  Path::level_valid / PathCat only ever
-    // compare bytes against '/', '.', '\0', so every other byte value behaves like 'a' (stated in evidence).
-    for (unsigned i = 0; i < cap; i++) {
-        uint8_t c = nondet_u8();
-        ASSUME(c == '/' || c == '.' || c == 'a' || c == 0);
-        s[i] = (char)c;
-    }
+    // every byte is fully symbolic (any of the 256 values, NUL ends the string early): the reference resolver below treats
+    // everything except '/', '.' and NUL as an ordinary character, so a change that gives another byte a special meaning shows up
+    for (unsigned i = 0; i < cap; i++) s[i] = (char)nondet_u8();
     s[cap] = 0;
 }
 static unsigned slen(const char* s) { unsigned n = 0; while (s[n]) n++; return n; }
@@ -218,6 +214,8 @@ void harness_lenlimit()
         CHECK(p == pc.buf, "accepted path points into the concatenation buffer");
         CHECK((size_t)bl + n + 1 <= sizeof(pc.buf), "concatenated path with terminator fits the buffer");
         CHECK(pc.buf[bl + n] == 0, "terminated");
+        bool same = true; for (unsigned i = 0; i < PLEN2; i++) { if (i >= n) break; if (pc.buf[bl + i] != s[i]) same = false; }
+        CHECK(same, "the whole path is copied behind the base prefix (never truncated)");
     }
     if (p) WITNESS("lenlimit: accepted"); else WITNESS("lenlimit: rejected");
     if (!p && !ref_escapes(s, n)) WITNESS("lenlimit: rejected for length");
